@@ -8,7 +8,7 @@ from common import R, Rmat, Cx, fl, flmat, cfl, max_rel_err
 
 from common import wiring_pre_build as pre_build  # noqa: E402,F401
 
-LEAN_MODULES = ["PyomaVerif.Props.C05", "PyomaVerif.Props.C05Charpoly", "PyomaVerif.Mutants.C05", "PyomaVerif.Props.WiringRun"]
+LEAN_MODULES = ["PyomaVerif.Props.C05", "PyomaVerif.Props.C05Charpoly", "PyomaVerif.Props.C05E2E", "PyomaVerif.Mutants.C05", "PyomaVerif.Props.WiringRun"]
 THEOREMS = [
     # call-site wiring of the class layer, regenerated from /repo on every run (translate_wiring.py)
     "PV.WiringRun.C05_run_plscf",
@@ -48,6 +48,33 @@ THEOREMS = [
     "PV.C05.C05_LO_zero_multiplicity",
     "PV.C05.C05_card_roots",
     "PV.C05.C05_rmfd2ac_charpoly",
+    # end-to-end chain (Props/C05E2E.lean): exact rational spectrum -> normalised denominator -> charpoly/eigenvalues of
+    # the rmfd2ac matrix -> pole-table column; orders above n
+    "PV.C05.C05_e2e_denominator",
+    "PV.C05.C05_e2e_numerator",
+    "PV.C05.C05_e2e_roots",
+    "PV.C05.C05_e2e_charpoly_normalised",
+    "PV.C05.C05_e2e_reciprocal",
+    "PV.C05.C05_e2e_table",
+    "PV.C05.C05_e2e_nan_pattern",
+    "PV.C05.C05_e2e_above_singular",
+    "PV.C05.C05_plscfOrder_block_solve",
+    "PV.C05.C05_e2e_above_none_of_complete",
+    "PV.C05.C05_e2e_above_none",
+    "PV.C05.C05_e2e_inj_of_run",
+    "PV.C05.C05_e2e_Ro_inj_of_run",
+    "PV.C05.C05_e2e_roots_closed",
+    "PV.C05.C05_e2e_table_closed",
+    # completeness of the exact elimination that models np.linalg.solve (Lemmas/GaussComplete.lean, Std.Do/mvcgen on
+    # the imperative model as written): a returned gaussJordan certifies a left inverse
+    "PV.Plscf.gaussJordan_leftInv",
+    "PV.Plscf.solveChecked_injective",
+    "PV.C05.e2e_fit",
+    "PV.C05.e2e_run",
+    "PV.C05.e2e_inj",
+    "PV.C05.e2e_rm",
+    "PV.C05.e2e_detA_roots",
+    "PV.C05.e2e_rec",
     "PV.Mutants.C05.real_ok",
     "PV.Mutants.C05.forwardOrder_fails",
     "PV.Mutants.C05.dropMinus_fails",
@@ -740,6 +767,11 @@ def oracle(ctx, scale):
         Nch = rng.randint(2, 5)
         Nref = rng.randint(1, 5)
         Nf = 4 * (n + 1) + rng.randint(0, 40)
+        if rng.random() < 0.025:
+            # long frequency grids (segment lengths of 2048 and more), not a multiple of any round block size
+            Nf = rng.choice([1025, 1201, 2049, rng.randint(1026, 2300)])
+            n, Nch, Nref = min(n, 3), min(Nch, 3), min(Nref, 2)
+            ctx.count("oracle_long_grid")
         dt = 10 ** rng.uniform(-3, 0.5)
         sgn = rng.choice([-1, 1])
         extra = rng.choice([0, 0, 1, 2])
@@ -832,6 +864,23 @@ def _class_case(ctx, pl, params=None):
     ctx.count(f"class_runs_{kw['method_SD']}")
     ctx.nontrivial.add(("class", kw["method_SD"], kw["ordmax"], nch))
     ra = a.result
+    if rng.random() < 0.5:
+        # looking at the result (zoomed stabilisation / cluster chart) is a read-only operation
+        import matplotlib.pyplot as plt
+
+        keep = [np.array(np.asarray(getattr(ra, f), dtype=float if f != "Lab" else None), copy=True) for f in ("Fn_poles", "Xi_poles", "Lab")]
+        band = (0.1 * fs, 0.3 * fs)
+        try:
+            a.plot_stab(freqlim=band, hide_poles=rng.random() < 0.5)
+            a.plot_cluster(freqlim=band)
+        finally:
+            plt.close("all")
+        ctx.oracle_cases += 1
+        ctx.count("class_result_viewed")
+        now = [np.asarray(getattr(a.result, f), dtype=float if f != "Lab" else None) for f in ("Fn_poles", "Xi_poles", "Lab")]
+        if not _same_arrays(keep, now):
+            ctx.violation("class-view-modifies-result", "pLSCF.plot_stab / plot_cluster with a frequency window changed the stored pole tables", inp | {"band": list(band)})
+            return
     Ad_a = [np.array(x, copy=True) for x in ra.Ad]
     Bn_a = [np.array(x, copy=True) for x in ra.Bn]
     if not np.array_equal(data, data_in):
